@@ -40,7 +40,10 @@ func (d *Driver) read() {
 
 		b = append(b, rb...)
 
-		if d.Channel.PromptPattern.Match(b) { //nolint: nestif
+		// the buffer can hold more than one delimited piece -- our echo followed by a late reply to
+		// an earlier rpc, or the other way round -- so look at it again after every piece that was
+		// cut off or filed, before anything further is read and appended to it
+		for d.Channel.PromptPattern.Match(b) { //nolint: nestif
 			if bytes.Contains(b, []byte("</rpc>")) {
 				// we read past the input, yay this is good, but we don't care that much, we just
 				// need to reset the buffer... *but* because there is a small read delay in channel
@@ -59,40 +62,37 @@ func (d *Driver) read() {
 				}
 
 				b = []byte(ss[1])
+
+				continue
 			}
 
-			// not an else: what followed our echo in the same read may already be a complete
-			// message (a late reply to an earlier rpc) -- it has to be filed now, before the next
-			// read is appended to it, or both end up stored under the first message's id
-			if d.Channel.PromptPattern.Match(b) {
-				var messageID int
+			var messageID int
 
-				var subID int
+			var subID int
 
-				messageID = getID(patterns.messageID.FindSubmatch(b))
+			messageID = getID(patterns.messageID.FindSubmatch(b))
 
-				if bytes.Contains(b, []byte("</subscription-id>")) {
-					subID = getID(patterns.subscriptionID.FindSubmatch(b))
-				}
-
-				if messageID != 0 {
-					d.Logger.Debugf(
-						"Received message response for message ID '%d', storing", messageID,
-					)
-
-					d.storeMessage(messageID, b)
-				}
-
-				if subID != 0 {
-					d.Logger.Debugf(
-						"Received message response for subscription ID '%d', storing", subID,
-					)
-
-					d.storeSubscriptionMessage(subID, b)
-				}
-
-				b = nil
+			if bytes.Contains(b, []byte("</subscription-id>")) {
+				subID = getID(patterns.subscriptionID.FindSubmatch(b))
 			}
+
+			if messageID != 0 {
+				d.Logger.Debugf(
+					"Received message response for message ID '%d', storing", messageID,
+				)
+
+				d.storeMessage(messageID, b)
+			}
+
+			if subID != 0 {
+				d.Logger.Debugf(
+					"Received message response for subscription ID '%d', storing", subID,
+				)
+
+				d.storeSubscriptionMessage(subID, b)
+			}
+
+			b = nil
 		}
 
 		time.Sleep(d.Channel.ReadDelay)
